@@ -40,6 +40,7 @@ type fakeRegion struct {
 	decOK    bool
 	partial  bool      // GenerateDataKey answers without error but with an empty CiphertextBlob (the plaintext is there)
 	errKind  int       // flavour of the error a failing call returns (0 plain, 1 wraps context.DeadlineExceeded, 2 wraps context.Canceled, 3 SDK operation error)
+	keyLen   int       // length of the data keys GenerateDataKey hands out (0 = 32)
 	wrong    bool      // Decrypt answers without error but with a data key that is not the one the envelope was sealed under (a stale or foreign regional entry)
 	log      *[]string // shared, ordered call log "gen:<id>", "enc:<id>", "dec:<id>"
 	logMu    *sync.Mutex
@@ -120,7 +121,11 @@ func (f *fakeRegion) generate() ([]byte, []byte, error) {
 	if !f.genOK {
 		return nil, nil, f.down()
 	}
-	pt := make([]byte, 32)
+	n := 32
+	if f.keyLen > 0 {
+		n = f.keyLen
+	}
+	pt := make([]byte, n)
 	rand.Read(pt)
 	f.mu.Lock()
 	f.retained = append(f.retained, pt)
@@ -242,6 +247,7 @@ type kmsCase struct {
 	Leak      bool     `json:"leak,omitempty"`    // debug logging is on and every line is scanned for plaintext keys (C03)
 	Wrong     []bool   `json:"wrong,omitempty"`   // unwrap side: regions whose KMS Decrypt succeeds but returns a data key that does not open the envelope
 	ErrKind   []int    `json:"errkind,omitempty"` // per region: flavour of the error its failing calls return
+	KeyLen    int      `json:"keylen,omitempty"`  // the regional KMS hands out / unwraps data keys of this many bytes instead of 32 (wipe monitor only, C10)
 	Viol      []string `json:"viol,omitempty"`
 }
 
@@ -359,6 +365,7 @@ func runKmsCase(c *kmsCase, r *gen.Rand) {
 	for i, rg := range regs {
 		rg.retained = nil
 		rg.partial = i < len(c.Partial) && c.Partial[i]
+		rg.keyLen = c.KeyLen
 	}
 	wctx, wcancel := context.WithCancel(context.Background())
 	defer wcancel()
@@ -398,6 +405,34 @@ func runKmsCase(c *kmsCase, r *gen.Rand) {
 			}
 		}
 		rg.retained = nil
+	}
+	if c.KeyLen != 0 {
+		// unwrap side: an envelope whose regional entries open to a data key of that length (the AEAD refuses it; the bytes must go all the same)
+		if up, err := buildPlugin(c.UnwrapV, regs, regs[c.Pref].name, worder); err == nil {
+			type kek struct {
+				Region string `json:"region"`
+				ARN    string `json:"arn"`
+				Kek    []byte `json:"encryptedKek"`
+			}
+			var keks []kek
+			for _, rg := range regs {
+				pt := make([]byte, c.KeyLen)
+				rand.Read(pt)
+				keks = append(keks, kek{rg.name, rg.arn, rg.seal(pt)})
+				rg.decOK, rg.retained = true, nil
+			}
+			envb, _ := json.Marshal(map[string]any{"encryptedKey": bytes.Repeat([]byte{7}, 60), "kmsKeks": keks})
+			_, _ = up.DecryptKey(context.Background(), envb)
+			for _, rg := range regs {
+				for _, b := range rg.retained {
+					if !allZero(b) {
+						viol("data key plaintext (%d bytes) unwrapped by region %d not wiped after DecryptKey", len(b), rg.id)
+					}
+				}
+				rg.retained = nil
+			}
+		}
+		return
 	}
 	if err != nil || anyPartial || c.Cancel == "gen" || c.Cancel == "enc" {
 		return
@@ -554,6 +589,15 @@ func runKms(a *args) error {
 				}
 			}
 		}
+	}
+	if a.extra == "oversize" {
+		// the regional KMS hands out / unwraps data keys that are not 32 bytes long: only the wipe of every plaintext it handed out is judged
+		for i := 0; i < a.n; i++ {
+			n := 1 + r.Intn(3)
+			emit(&kmsCase{N: n, Pref: r.Intn(n), Gen: bits((1<<uint(n))-1, n), Enc: bits(r.Intn(1<<uint(n)), n), Dec: bits((1<<uint(n))-1, n),
+				WrapV: 1 + r.Intn(2), UnwrapV: 1 + r.Intn(2), DecN: n, KeyLen: gen.Pick(r, []int{16, 24, 33, 40, 48, 64, 100, 1000})})
+		}
+		return gen.WriteJSON(a.out, map[string]any{"cases": out})
 	}
 	if a.extra == "partial" {
 		// incomplete GenerateDataKey answers: only the wipe of every plaintext the KMS handed out is judged
